@@ -105,6 +105,17 @@ def s1t(x, y, z, *, t, w=2.0):
     return 1.25 + 0.5 * np.cos(w * t)
 
 
+def _factory_leaf(arity, a):
+    """A leaf function that captures ``a`` in a closure (the usual way to parametrise a callable in user code)."""
+    if arity == "2d":
+        def leaf(x, y):
+            return a * (1.0 + 0.1 * np.cos(x) * np.cos(y))
+    else:
+        def leaf(x, y, z):
+            return a * (1.0 + 0.1 * np.cos(x) * np.cos(y) + 0.0 * z)
+    return leaf
+
+
 TWINS = {"g0": "g0t", "g0t": "g0", "h0": "h0t", "h0t": "h0", "v0": "v0t", "v0t": "v0", "s1": "s1t", "s1t": "s1"}
 FUNCS = {f.__name__: f for f in (g0, g1, h0, h1, v0, v1, s0, s1, s2, g0t, h0t, v0t, s1t)}
 STATIC = {"2d": ["g0", "g1", "g0t"], "3d": ["v0", "v1", "v0t"]}
@@ -429,6 +440,19 @@ def check_case(spec):
             res.fail("C16.inequality", f"composite compares equal to a tree with a different {what}")
     except Exception as exc:  # noqa: BLE001
         res.fail("C16.equality", f"comparison raised {type(exc).__name__}: {exc}")
+    # leaves made by a factory: the same code object, different captured constants - different leaves with different values
+    try:
+        a0 = 0.5 + (spec["mutate"] % 7) * 0.25
+        a1 = a0 + 1.0 + (spec["mutate"] % 3)
+        p_a, p_a2, p_b = tdgl.Parameter(_factory_leaf(arity, a0)), tdgl.Parameter(_factory_leaf(arity, a0)), tdgl.Parameter(_factory_leaf(arity, a1))
+        args = (1.0, 2.0) + (() if arity == "2d" else (0.5,))
+        if not (p_a == p_a2) or not ((p_a * 2) == (p_a2 * 2)):
+            res.fail("C16.equality", "two leaves made by the same factory call with the same captured constant compare unequal")
+        if (p_a == p_b) or ((p_a + 1) == (p_b + 1)) or ((2 / (p_a * comp)) == (2 / (p_b * comp))):
+            res.fail("C16.inequality", f"leaves made by one factory with different captured constants ({a0}, {a1}) compare equal (alone or inside a composite) "
+                     f"although their values differ: {p_a(*args)!r} vs {p_b(*args)!r}")
+    except Exception as exc:  # noqa: BLE001
+        res.fail("C16.equality", f"comparison of factory-made leaves raised {type(exc).__name__}: {exc}")
 
     # ---- cache clearing
     try:
